@@ -301,6 +301,12 @@ func (t *Total) Clone() *Total {
 	return nt
 }
 
+// addMatching adds two amounts at the finer of their two precisions, so that
+// neither operand loses decimals whichever comes first.
+func addMatching(a, b num.Amount) num.Amount {
+	return a.MatchPrecision(b).Add(b)
+}
+
 // Merge will combine two totals objects into a new one, summing up the values
 // of the categories and rates. The original totals will not be modified.
 // The totals may contain zero amounts if the amounts in the second total are negative.
@@ -331,11 +337,11 @@ func (t *Total) Merge(t2 *Total) *Total {
 			catTotal.Rates = append(catTotal.Rates, ct.Rates...)
 			nt.Categories = append(nt.Categories, catTotal)
 		} else {
-			catTotal.Amount = catTotal.Amount.Add(ct.Amount)
+			catTotal.Amount = addMatching(catTotal.Amount, ct.Amount)
 			if ct.Surcharge != nil {
 				ns := *ct.Surcharge
 				if catTotal.Surcharge != nil {
-					ns = catTotal.Surcharge.Add(ns)
+					ns = addMatching(*catTotal.Surcharge, ns)
 				}
 				catTotal.Surcharge = &ns
 			}
@@ -367,10 +373,10 @@ func (t *Total) Merge(t2 *Total) *Total {
 					catTotal.Rates = append(catTotal.Rates, rateTotal)
 				} else {
 					// Merge the amounts
-					rateTotal.Base = rateTotal.Base.Add(rt.Base)
-					rateTotal.Amount = rateTotal.Amount.Add(rt.Amount)
+					rateTotal.Base = addMatching(rateTotal.Base, rt.Base)
+					rateTotal.Amount = addMatching(rateTotal.Amount, rt.Amount)
 					if rt.Surcharge != nil {
-						rateTotal.Surcharge.Amount = rateTotal.Surcharge.Amount.Add(rt.Surcharge.Amount)
+						rateTotal.Surcharge.Amount = addMatching(rateTotal.Surcharge.Amount, rt.Surcharge.Amount)
 					}
 				}
 			}
@@ -378,8 +384,8 @@ func (t *Total) Merge(t2 *Total) *Total {
 	}
 
 	// Merge the sum
-	nt.Sum = nt.Sum.Add(t2.Sum)
-	nt.sum = nt.sum.Add(t2.sum)
+	nt.Sum = addMatching(nt.Sum, t2.Sum)
+	nt.sum = addMatching(nt.sum, t2.sum)
 
 	return nt
 }
